@@ -38,13 +38,14 @@ UnitsOk(u, g) == u >= 0 /\ u <= g
 SolveOk(e) ==
   IF e.panic THEN FALSE
   ELSE IF e.ty = "rat"
-    THEN /\ e.len = e.n
+    THEN /\ e.len = e.n                    \* checked BEFORE any x[k] is touched (the log holds at most n entries)
+         /\ Len(e.x) = e.n
          /\ ExactSolution(e.a, e.x, e.b, e.n)
          /\ (Has(e, "want") => SameSeqs(e.x, e.want))
     ELSE e.len = e.n /\ UnitsOk(e.units, Guard(e))
 AgreeOk(e) ==
   IF e.panic THEN FALSE
-  ELSE IF e.ty = "rat" THEN SameSeqs(e.x1, e.x2) /\ Len(e.x1) = e.n
+  ELSE IF e.ty = "rat" THEN e.len1 = e.n /\ e.len2 = e.n /\ Len(e.x1) = e.n /\ SameSeqs(e.x1, e.x2)
   ELSE UnitsOk(e.units, 2 * Guard(e))
 DetOkEv(e) ==
   IF e.panic THEN FALSE
